@@ -4,7 +4,7 @@
        weighted sum of the program counters, claim counters, buffered errors ... )
    Every step of the phase decreases it; a state of the phase in which nothing can move is final. *)
 From Coq Require Import List Arith Bool Lia.
-From SV Require Import C12.Lts C12.LtsProofs C12.Tac C12.Group C12.GroupProofs C12.GroupInv1 C12.GroupInv2 C12.GroupSafety.
+From SV Require Import C12.Lts C12.LtsProofs C12.Tac C12.Group C12.GroupProofs C12.GroupInv_01 C12.GroupInv_02 C12.GroupSafety.
 Import ListNotations.
 
 Module GrpT.
